@@ -104,9 +104,9 @@ release_harness!(release_raw_up1_c2, VA<0>, S<1, true>, 4, 2, 24, false);
 release_harness!(release_drop_down1_c2, VA<0>, S<1, false>, 0, 2, 24, true);
 release_harness!(release_reset_down1_c2, VA<0>, S<1, false>, 1, 2, 24, true);
 release_harness!(release_drop_up1_extra8_c2, VA<8>, S<1, true>, 0, 2, 24, false);
-release_harness!(release_reset_down1_extra24_c2, VA<24>, S<1, false>, 1, 2, 24, true);
+release_harness!(release_reset_down1_extra24_c2, VA<24>, S<1, false>, 1, 2, 40, true);
 release_harness!(release_drop_over_up1_c2, VAOver, S<1, true>, 0, 2, 64, true);
-release_harness!(release_reset_over_down1_c2, VAOver, S<1, false>, 1, 2, 64, true);
+release_harness!(release_reset_over_down1_c2, VAOver, S<1, false>, 1, 2, 80, true);
 release_harness!(release_drop_stateful_down1_c2, VAStateful, S<1, false>, 0, 2, 16, true);
 
 /// a Bump that was never used in unallocated mode never calls the base allocator
